@@ -120,7 +120,7 @@ pub fn tape_checks(ctx: &Ctx) -> Vec<(&'static str, Box<CheckFn<'_>>)> {
 pub fn run(ctx: &Ctx) -> (Level, Report) {
 	let mut report = Report::default();
 	for (name, check) in tape_checks(ctx) {
-		let out = ctx.random(name, 100_000, 20, 512, &*check);
+		let out = ctx.random(name, 400_000, 10, 512, &*check);
 		report.absorb(name, out);
 	}
 	crate::programs::run_c13(ctx, &mut report);
